@@ -229,7 +229,7 @@ def _table_fn(F, tname, method):
     return c[0] if len(c) == 1 else None
 
 
-def clause_table_reorg_visits_all(R, F):
+def clause_table_reorg_visits_all(R, F, crash_clause=False):
     """BlockCachedDatabase::reorg: persisted histories (cache_db full scan) ∪ in-memory keys, per-key reorg, then commit"""
     tn = [n for n in roles.table_types(F) if n.endswith("BlockCachedDatabase")][0]
     fn = _table_fn(F, tn, "reorg")
@@ -268,6 +268,22 @@ def clause_table_reorg_visits_all(R, F):
     if "per-key" in need and "commit" in need:
         R.ob(not fn.dominates(need["commit"].bb, need["per-key"].bb), "DOM-order", fn.where(), "DOM-order|table.reorg|rollback<commit",
              "commit precedes the per-key rollback")
+    # every history that was loaded stays in memory until the commit: the commit must rewrite the latest value of *every*
+    # visited key (that is what lets a repeated reorg repair a crash between a history-row and a latest-row write)
+    if "commit" in need and crash_clause:
+        droppers = []
+        for c in fn.calls():
+            m = c.method or ""
+            if m in ("remove", "retain", "clear", "drain", "clear_cache", "remove_entry", "extract_if") and not fn.is_cleanup(c.bb) and c.args:
+                recv = show(origin(fn, c.args[0]))
+                if ("self.cache" in recv or m == "clear_cache") and "cache_db" not in recv:
+                    if not fn.dominates(need["commit"].bb, c.bb):
+                        droppers.append(c)
+        R.ob(not droppers, "DOM-order", fn.where(), "DOM-order|table.reorg|no-drop-before-commit",
+             "BlockCachedDatabase::reorg drops loaded histories from memory before the commit (%s): their latest-value rows are not "
+             "rewritten, so a crash between a history-row and a latest-row write of an earlier attempt is never repaired" % ", ".join(
+                 "%s at line %d" % (c.method, c.line) for c in droppers),
+             sample={"rule": "DOM-order", "fn": "table.reorg", "row": "no cache.remove/retain/clear before commit"})
 
 
 def clause_blockdb_reorg(R, F):
